@@ -59,6 +59,9 @@ def main():
             status = line.split()[0] if line else "?"
             m = re.search(r"violations=(\d+) \(no-input=(\d+)\)", line)
             detail = f"{m.group(1)} violation line(s), {m.group(2)} without failing input" if m else line[:80]
+            if status.startswith("PATCH-FAILED") and meta.get("superseded_by"):
+                status = "SUPERSEDED"
+                detail = "no longer applies to the current tree; regenerated as " + meta["superseded_by"]
             if meta.get("expect") == "not-flagged" and chk == p:
                 status = "NOT-FLAGGED(expected)" if status == "MISSED" else "FLAGGED(unexpected)"
                 detail += "; " + meta.get("expect_why", "")
